@@ -281,6 +281,52 @@ fn incremental_after_snapshot() -> i32 {
     }
 }
 
+/// Point-in-time restore over a branching backup graph: two incrementals taken against the same full backup
+/// ("differentials").  The target at or after the second one must yield the collection as of the second one.
+fn pitr_siblings() -> i32 {
+    use kyrodb_engine::backup::{BackupManager, RestoreManager, ClearDirectoryOptions};
+    let tmp = tempfile::TempDir::new().unwrap();
+    let data = tmp.path().join("data");
+    let backups = tmp.path().join("backups");
+    let restore = tmp.path().join("restore");
+    std::fs::create_dir_all(&backups).unwrap();
+    std::fs::create_dir_all(&restore).unwrap();
+    let metric = DistanceMetric::Euclidean;
+    let b = open_new(&data, metric, 0, 0);
+    b.insert(1, vec![1.0, 0.0, 0.0, 0.0], HashMap::new()).unwrap();
+    b.insert(2, vec![0.0, 1.0, 0.0, 0.0], HashMap::new()).unwrap();
+    let mgr = BackupManager::new(&backups, &data).unwrap();
+    let full = mgr.create_full_backup("full".to_string()).unwrap();
+    std::thread::sleep(Duration::from_millis(1100));
+    b.insert(10, vec![0.0, 0.0, 1.0, 0.0], HashMap::new()).unwrap();
+    let d1 = mgr.create_incremental_backup(full.id, "d1".to_string()).unwrap();
+    std::thread::sleep(Duration::from_millis(1100));
+    b.insert(11, vec![0.0, 0.0, 0.0, 1.0], HashMap::new()).unwrap();
+    b.delete(2).unwrap();
+    let live = census(&b, [1u64, 2, 10, 11].into_iter());
+    let d2 = match mgr.create_incremental_backup(full.id, "d2".to_string()) {
+        Ok(m) => m,
+        Err(e) => { println!("NOT-REPRODUCED: second incremental against the same parent was refused: {:#}", e); return 0; }
+    };
+    drop(b);
+    if !(full.timestamp < d1.timestamp && d1.timestamp < d2.timestamp) { println!("NOT-REPRODUCED: backup timestamps not strictly increasing"); return 0; }
+    let rm = RestoreManager::new(&backups, &restore).unwrap();
+    if let Err(e) = rm.restore_point_in_time_with_options(d2.timestamp, &ClearDirectoryOptions::new().with_allow_clear(true)) {
+        println!("NOT-REPRODUCED: point-in-time restore was refused: {:#}", e); return 0;
+    }
+    match recover(&restore, metric) {
+        Err(e) => { println!("REPRODUCED: point-in-time restore at the second incremental's timestamp succeeds but the directory does not start: {:#}", e); 1 }
+        Ok(rb) => {
+            let got = census(&rb, [1u64, 2, 10, 11].into_iter());
+            if got == live { println!("NOT-REPRODUCED: PITR at d2.timestamp yields the collection as of d2"); 0 }
+            else {
+                let diff: Vec<u64> = live.iter().zip(got.iter()).filter(|(a, b)| a.1 != b.1).map(|(a, _)| a.0).collect();
+                println!("REPRODUCED: PITR at the timestamp of incremental d2 ({}; sibling d1 {} has the same parent {}) restores a different collection: documents {:?} differ (deleted document back / later insert missing)", d2.id, d1.id, full.id, diff); 1
+            }
+        }
+    }
+}
+
 /// F-k: with `disable_normalization_check` the pre-log validation accepts a vector whose squared norm overflows under
 /// Cosine / InnerProduct: normalisation multiplies every lane by 1/sqrt(inf) = 0, the all-zero result is finite, is
 /// logged and acknowledged, and the replay-time normalisation then refuses it ("norm is zero"): restart fails.
@@ -509,6 +555,7 @@ fn main() {
         Some("zero-after-normalize") => zero_after_normalize(),
         Some("prune-breaks-chain") => prune_breaks_chain(),
         Some("incremental-after-snapshot") => incremental_after_snapshot(),
+        Some("pitr-siblings") => pitr_siblings(),
         Some("periodic-idle") => periodic_idle(),
         Some("periodic-idle-inner") => periodic_idle_inner(args.get(2).map(|s| s.as_str()).unwrap_or("/nonexistent")),
         Some("crash-after-unlink") => crash_after_unlink(),
